@@ -576,3 +576,166 @@ Proof.
     + cbn [SA fold_right length]. nia.
     + cbn [length]. lia.
 Qed.
+
+(** ** BuildSettlement's model never runs out of fuel on valid orders. *)
+Definition valid_order (o : order) : Prop := 0 < o_assets o /\ 0 < o_price o.
+
+(** What every fulfillment satisfies between allocateAssets and allocatePrice. *)
+Definition J (f : ofl) : Prop :=
+  0 <= f_afilled f /\ f_papplied f = 0 /\ f_pleft f = o_price (f_order f) /\
+  0 < o_price (f_order f) /\ 0 < o_assets (f_order f).
+
+Lemma J_new o : valid_order o -> J (new_ofl o).
+Proof. intros [H1 H2]. unfold J, new_ofl; cbn. repeat split; lia. Qed.
+
+Lemma dist_assets_J f other amt f' : 0 <= amt -> J f -> dist_assets f other amt = Ok f' -> J f'.
+Proof.
+  unfold dist_assets. intros Hamt (J1 & J2 & J3 & J4 & J5) H.
+  destruct (f_aunfilled f <? amt); [discriminate|]. inversion H; subst. unfold J; cbn. repeat split; try assumption; lia.
+Qed.
+
+Lemma alloc_assets_J fuel : forall adone asks bdone bids a1 b1,
+  Forall J adone -> Forall J asks -> Forall J bdone -> Forall J bids ->
+  alloc_assets fuel adone asks bdone bids = Ok (a1, b1) -> Forall J a1 /\ Forall J b1.
+Proof.
+  induction fuel as [|fuel IH]; intros adone asks bdone bids a1 b1 H1 H2 H3 H4 H.
+  - destruct asks as [|a ar]; [|destruct bids as [|b br]]; cbn in H; try discriminate;
+      inversion H; subst; split; apply Forall_app; split; auto using Forall_rev.
+  - destruct asks as [|a ar]; [|destruct bids as [|b br]]; cbn [alloc_assets] in H;
+      try (inversion H; subst; split; apply Forall_app; split; auto using Forall_rev; fail).
+    destruct (Z.leb_spec (f_aunfilled a) 0); cbn [orb] in H; [discriminate|].
+    destruct (Z.leb_spec (f_aunfilled b) 0); cbn [orb] in H; [discriminate|].
+    inv_bind H. destruct x as [a' b']. unfold dist_assets2 in Hx. inv_bind Hx. inv_bind Hx. inversion Hx; subst.
+    pose proof (Forall_inv H2) as Ja. pose proof (Forall_inv_tail H2) as Jar.
+    pose proof (Forall_inv H4) as Jb. pose proof (Forall_inv_tail H4) as Jbr.
+    assert (Ja' : J a') by (eapply dist_assets_J; [|exact Ja|exact Hx0]; lia).
+    assert (Jb' : J b') by (eapply dist_assets_J; [|exact Jb|exact Hx1]; lia).
+    destruct (negb (f_aunfilled a' =? 0) && negb (f_aunfilled b' =? 0)); [discriminate|].
+    apply (IH _ _ _ _ _ _) in H; [assumption| | | |];
+      destruct (f_aunfilled a' =? 0), (f_aunfilled b' =? 0); auto.
+Qed.
+
+Lemma split_not_fuel o k : split o k <> OutOfFuel.
+Proof.
+  unfold split.
+  destruct (k <=? 0); [discriminate|]. destruct (k =? o_assets o); [discriminate|].
+  destruct (o_assets o <? k); [discriminate|]. destruct (negb (o_partial o)); [discriminate|].
+  assert (Hm : forall a b, mulchk a b <> OutOfFuel) by (intros; unfold mulchk, of_opt; destruct (chk _); discriminate).
+  destruct (mulchk (o_price o) k) eqn:Em; cbn [rbind]; [|discriminate|exfalso; apply (Hm _ _ Em)].
+  unfold quo_rem. destruct (negb (Z.rem a (o_assets o) =? 0)); [discriminate|].
+  assert (Hsf : forall fees acc, split_fees fees k (o_assets o) acc <> OutOfFuel).
+  { induction fees as [|[d f] r IH]; intros acc; cbn [split_fees]; [discriminate|].
+    destruct (mulchk f k) eqn:Ef; cbn [rbind]; [|discriminate|exfalso; apply (Hm _ _ Ef)].
+    unfold quo_rem. destruct (negb _); [discriminate|]. destruct (_ <? 0); [discriminate|]. apply IH. }
+  destruct (coins_is_zero (o_fees o)); cbn [rbind]; [discriminate|].
+  destruct (split_fees (o_fees o) k (o_assets o) []) eqn:Es; cbn [rbind]; [|discriminate|exfalso; apply (Hsf _ _ Es)].
+  destruct (coins_any_neg _); cbn [rbind]; discriminate.
+Qed.
+
+Lemma split_fs_J fs : forall lft fs' lft',
+  Forall J fs -> split_fs fs lft = Ok (fs', lft') -> Forall J fs'.
+Proof.
+  induction fs as [|f r IH]; intros lft fs' lft' HJ H; cbn [split_fs] in H.
+  - inversion H; subst. constructor.
+  - pose proof (Forall_inv HJ) as Jf. pose proof (Forall_inv_tail HJ) as Jr.
+    destruct (f_afilled f =? 0); [discriminate|]. destruct (f_aunfilled f =? 0); cbn [negb] in H.
+    + inv_bind H. destruct x as [r' l']. inversion H; subst. constructor; [assumption|]. apply (IH _ _ _ Jr Hx).
+    + destruct r; [|discriminate]. destruct lft; [discriminate|].
+      inv_bind H. destruct x as [f' unf]. inversion H; subst. constructor; [|constructor].
+      unfold split_ofl in Hx. inv_bind Hx. destruct x as [fil unf']. inversion Hx; subst.
+      destruct Jf as (J1 & J2 & J3 & J4 & J5).
+      destruct (split_sound _ _ _ _ Hx0) as (Hk & _ & _ & _ & Haf & _ & _ & Hpf & _).
+      unfold J; cbn. repeat split; try lia; try nia.
+Qed.
+
+Lemma split_fs_not_fuel fs : forall lft, split_fs fs lft <> OutOfFuel.
+Proof.
+  induction fs as [|f r IH]; intros lft; cbn [split_fs]; [discriminate|].
+  destruct (f_afilled f =? 0); [discriminate|]. destruct (negb (f_aunfilled f =? 0)).
+  - destruct r; [|discriminate]. destruct lft; [discriminate|]. unfold split_ofl.
+    destruct (split (f_order f) (f_afilled f)) as [[fil unf]| |] eqn:E; cbn [rbind]; try discriminate.
+    exfalso; apply (split_not_fuel _ _ E).
+  - destruct (split_fs r lft) as [[r' l']| |] eqn:E; cbn [rbind]; try discriminate. exfalso; apply (IH _ E).
+Qed.
+
+Lemma idx_get_not_fuel i : idx_get i <> OutOfFuel.
+Proof. unfold idx_get. destruct (forallb _ i); discriminate. Qed.
+
+Lemma index_dists_not_fuel d dists : forall idx sum, index_dists d dists idx sum <> OutOfFuel.
+Proof.
+  induction dists as [|[a amt] r IH]; intros idx sum; cbn [index_dists]; [discriminate|].
+  destruct (amt <=? 0); [discriminate|apply IH].
+Qed.
+
+Lemma transfer_not_fuel f : get_asset_transfer f <> OutOfFuel /\ get_price_transfer f <> OutOfFuel.
+Proof.
+  unfold get_asset_transfer, get_price_transfer. split.
+  - destruct (f_afilled f <=? 0); [discriminate|].
+    destruct (index_dists _ _ [] 0) as [[idx sum]| |] eqn:E; cbn [rbind]; [|discriminate|exfalso; apply (index_dists_not_fuel _ _ _ _ E)].
+    destruct (negb _); [discriminate|].
+    destruct (idx_get idx) eqn:E2; cbn [rbind]; [discriminate|discriminate|exfalso; apply (idx_get_not_fuel _ E2)].
+  - destruct (f_papplied f <=? 0); [discriminate|].
+    destruct (index_dists _ _ [] 0) as [[idx sum]| |] eqn:E; cbn [rbind]; [|discriminate|exfalso; apply (index_dists_not_fuel _ _ _ _ E)].
+    destruct (negb _); [discriminate|].
+    destruct (idx_get idx) eqn:E2; cbn [rbind]; [discriminate|discriminate|exfalso; apply (idx_get_not_fuel _ E2)].
+Qed.
+
+Lemma record_all_not_fuel getter fs : (forall f, getter f <> OutOfFuel) ->
+  forall fees, record_all getter fs fees <> OutOfFuel.
+Proof.
+  intros Hg. induction fs as [|f r IH]; intros fees; cbn [record_all]; [discriminate|].
+  destruct (getter f) eqn:E; cbn [rbind]; [|discriminate|exfalso; apply (Hg _ E)].
+  destruct (coins_is_zero (f_fees f)); cbn [rbind].
+  - destruct (record_all getter r fees) as [[ts f2]| |] eqn:E2; cbn [rbind]; try discriminate. exfalso; apply (IH _ E2).
+  - destruct (coins_any_neg (f_fees f)); cbn [rbind]; [discriminate|].
+    destruct (record_all getter r _) as [[ts f2]| |] eqn:E2; cbn [rbind]; try discriminate. exfalso; apply (IH _ E2).
+Qed.
+
+Lemma set_ask_fees_not_fuel asks r : set_ask_fees asks r <> OutOfFuel.
+Proof.
+  induction asks as [|a ar IH]; cbn [set_ask_fees]; [discriminate|].
+  assert (Ha : match r with
+               | None => Ok (set_fee a (o_fees (f_order a)))
+               | Some rt => rbind (ratio_fee rt (o_pd (f_order a)) (f_papplied a))
+                              (fun '(d, amt) => Ok (set_fee a (coins_add1 (o_fees (f_order a)) d amt)))
+               end <> OutOfFuel).
+  { destruct r as [rt|]; [|discriminate]. unfold ratio_fee.
+    destruct (negb _); cbn [rbind]; [discriminate|].
+    destruct (apply_loosely_chk _ _ _) as [[[amt b]|]|]; cbn [rbind]; discriminate. }
+  destruct (match r with None => _ | Some rt => _ end) eqn:E; cbn [rbind]; [|discriminate|exfalso; apply Ha; reflexivity].
+  destruct (set_ask_fees ar r) eqn:E2; cbn [rbind]; [discriminate|discriminate|exfalso; apply IH; reflexivity].
+Qed.
+
+(** BuildSettlement's model never reports fuel exhaustion on valid orders. *)
+Lemma build_fuel asks bids lk :
+  Forall valid_order asks -> Forall valid_order bids -> lk <> OutOfFuel ->
+  build asks bids lk <> OutOfFuel.
+Proof.
+  intros Va Vb Hlk. unfold build.
+  destruct (negb (validate_can_settle asks bids)); [discriminate|].
+  destruct (allocate_assets (map new_ofl asks) (map new_ofl bids)) as [[a1 b1]| |] eqn:E1; cbn [rbind];
+    [|discriminate|exfalso; apply (allocate_assets_fuel _ _ E1)].
+  assert (HJ0 : forall l, Forall valid_order l -> Forall J (map new_ofl l)).
+  { induction 1; cbn; constructor; auto using J_new. }
+  unfold allocate_assets in E1.
+  destruct (alloc_assets_J _ _ _ _ _ _ _ (Forall_nil _) (HJ0 _ Va) (Forall_nil _) (HJ0 _ Vb) E1) as [Ja1 Jb1].
+  unfold split_partial.
+  destruct (split_fs a1 None) as [[a2 l1]| |] eqn:E2; cbn [rbind]; [|discriminate|exfalso; apply (split_fs_not_fuel _ _ E2)].
+  destruct (split_fs b1 l1) as [[b2 l2]| |] eqn:E3; cbn [rbind]; [|discriminate|exfalso; apply (split_fs_not_fuel _ _ E3)].
+  pose proof (split_fs_J _ _ _ _ Ja1 E2) as Ja2. pose proof (split_fs_J _ _ _ _ Jb1 E3) as Jb2.
+  destruct (allocate_price a2 b2) as [[a3 b3]| |] eqn:E4; cbn [rbind]; [|discriminate|].
+  2:{ exfalso. revert E4. apply allocate_price_fuel.
+      - eapply Forall_impl; [|exact Jb2]. intros f (J1 & J2 & J3 & J4 & J5). lia.
+      - eapply Forall_impl; [|exact Ja2]. intros f (J1 & _). exact J1. }
+  destruct lk as [r| |]; cbn [rbind]; [|discriminate|contradiction].
+  destruct (set_ask_fees a3 r) as [a4| |] eqn:E5; cbn [rbind]; [|discriminate|exfalso; apply (set_ask_fees_not_fuel _ _ E5)].
+  destruct (negb _); [discriminate|].
+  destruct (record_all get_asset_transfer a4 []) as [[ts1 fees1]| |] eqn:E6; cbn [rbind]; [|discriminate|].
+  2:{ exfalso. revert E6. apply record_all_not_fuel. intros f. apply transfer_not_fuel. }
+  destruct (record_all get_price_transfer (set_bid_fees b3) fees1) as [[ts2 fees2]| |] eqn:E7; cbn [rbind]; [|discriminate|].
+  2:{ exfalso. revert E7. apply record_all_not_fuel. intros f. apply transfer_not_fuel. }
+  destruct fees2 as [|e fr]; cbn [rbind].
+  - destruct (populate a4 l2 [] None) as [full1 part1]. destruct (populate (set_bid_fees b3) l2 full1 part1). discriminate.
+  - destruct (idx_get (e :: fr)) eqn:E8; cbn [rbind]; [|discriminate|exfalso; apply (idx_get_not_fuel _ E8)].
+    destruct (populate a4 l2 [] None) as [full1 part1]. destruct (populate (set_bid_fees b3) l2 full1 part1). discriminate.
+Qed.
